@@ -8,11 +8,13 @@ import (
 	"os"
 
 	"verif/harness/comp/ring"
+	"verif/harness/comp/sched"
 	"verif/harness/internal/hx"
 )
 
 var components = map[string]func(o *hx.Out, g *hx.Rng, tier string){
 	"ring": ring.Run,
+	"sched": sched.Run,
 }
 
 func main() {
